@@ -158,6 +158,8 @@ var (
 		FaultPct: 35, GatePct: 20, RetPct: 60, UnknownNamePct: 15, BadNMPct: 0,
 	}
 	clPoolMgmt  = []string{"query-disagrees", "instance-runs-stale-rules", "cleared-pool-call-failed", "mgmt-panic", "invalid-operation-accepted", "valid-operation-rejected"}
+	clCompile   = []string{"compile-panic", "entry-points-disagree", "invalid-text-accepted", "valid-text-rejected", "failed-compile-changed-state",
+		"entry-points-install-different-sets", "ruleset-extra-rule", "ruleset-wrong-version", "ruleset-wrong-salience", "ruleset-order", "ruleset-duplicate", "ruleset-missing-rule"}
 	clVersions  = []string{"not-one-installed-version", "mgmt-panic", "invalid-text-accepted"}
 	clCapacity  = []string{"more-than-max-in-flight", "request-did-not-wait", "pool-capacity-lost"}
 	clIsolation = []string{"foreign-request-data", "stale-injected-key-visible", "result-map-modified-after-return", "request-data-modified-after-return",
@@ -177,6 +179,25 @@ func mixed(p *Profile) func(plan, sched *simrt.Source, trace bool) *RunOut {
 		}
 		return RunW2(opt, plan, sched, trace)
 	}
+}
+
+// C19: the concurrency scenarios of C05, C06, C07, C13, C17, C18 (and management calls
+// concurrent with executions) under the race detector.
+var c19Scenarios = []func(plan, sched *simrt.Source, trace bool) *RunOut{
+	w2(&W2Opt{Prof: ProfC07, Methods: cat(allEngineMethods, []int{MPoolEMMulti, MPoolSelEM}), MaxClients: 4, MaxReqs: 4, Admins: 2, MaxMgmt: 3,
+		MgmtKinds: []int{OpFull, OpIncr, OpIncr, OpRemove, OpClear, OpSetEM}, InvalidPct: 10, UpdFromRule: true}),
+	w2(&W2Opt{Prof: ProfC17, Methods: allEngineMethods, MaxClients: 6, MaxReqs: 4, FinalProbe: true, WaiterRound: true, NilTagPct: 30}),
+	w2(&W2Opt{Prof: ProfC06, Methods: allEngineMethods, MaxClients: 5, MaxReqs: 5, OptPct: 50}),
+	w2(&W2Opt{Prof: ProfC05, Methods: stagedMethods, MaxClients: 3, MaxReqs: 3}),
+	w2(&W2Opt{Prof: ProfC13, Methods: []int{MDAG}, MaxClients: 3, MaxReqs: 3}),
+	w2(&W2Opt{Prof: ProfC18, Methods: []int{MExecute, MConcurrent, MMix, MDAG, MPoolEMMulti}, MaxClients: 3, MaxReqs: 3}),
+	w1(ProfC18),
+	w1(ProfC05),
+	w1(ProfC15),
+}
+
+func runC19(plan, sched *simrt.Source, trace bool) *RunOut {
+	return c19Scenarios[plan.Intn(len(c19Scenarios))](plan, sched, trace)
 }
 
 func w1(p *Profile) func(plan, sched *simrt.Source, trace bool) *RunOut {
@@ -206,6 +227,8 @@ func init() {
 	register(&PropDef{ID: "C16", Clauses: set(clPoolMgmt, clSpec, clContain), Run: func(plan, sched *simrt.Source, trace bool) *RunOut {
 		return RunW2Scripted(ProfC16, plan, sched, trace)
 	}})
+	register(&PropDef{ID: "C10", Clauses: set(clCompile, clContain), Run: RunW3Compile})
+	register(&PropDef{ID: "C19", Clauses: set([]string{"data-race"}), Run: runC19, Race: true})
 	register(&PropDef{ID: "C08", Run: RunW3Builder, Clauses: set(clRuleSet, clContain)})
 	register(&PropDef{ID: "C18", Run: w1(ProfC18), Clauses: set(clConc, clContain)})
 }
